@@ -29,6 +29,8 @@ def run(cx):
     r2(cx)
     r3(cx)
     r5_upsert_writes(cx)
+    cx.rule("C11.R6", "K2", "a process error set after start reaches the stored row: every Process::set_err is followed, before the function returns, by something that stores a task of that process (and with it patches the process row) or the row itself")
+    r6_proc_err_stored(cx)
     r1_tracked(cx)
     r1_other(cx)
 
@@ -584,3 +586,27 @@ def _from_call(f, pa, op, calls):
     if r[0] == "local":
         return any(d[2] == "call" and any(d[0] == c.b for c in calls) for d in f.defs().get(r[1], []))
     return False
+
+
+def r6_proc_err_stored(cx):
+    """the process row is patched only when a task is stored (C11.R3). `proc.set_err(..)` AFTER the last task event of the
+    process leaves the row without the error for ever: with keep_processes the kept row of a failed process says err = null"""
+    m = cx.m
+    LOADER = re.compile(r"Store>::load(_proc)?$|Cache::push_task_pri$|Process::new(_with_timestamp)?$|Store>::load_tasks$")
+    STORES = re.compile(r"scheduler::Scheduler::emit_task_event$|context::Context::emit_task$|cache::Cache::(upsert|push|push_task_pri|push_proc)$|Store>::upsert_(proc|task)$|runtime::Runtime::push$")
+    n = 0
+    for f in sorted(m.fns.values(), key=lambda f: f.q):
+        if f.crate != "acts" or f.exp or "::tests::" in f.q or LOADER.search(f.q):
+            continue
+        for c in f.calls():
+            if not c.q.endswith("process::Process::set_err"):
+                continue
+            n += 1
+            stores = [x.b for x in f.calls() if STORES.search(x.q)]
+            exits = f.ret_blocks()
+            after = f.reach_from([c.target], avoid=stores) if c.target is not None else set()
+            silent = [b for b in exits if b in after]
+            cx.ob("C11.R6", "proc-err:%s" % f.short, not silent,
+                  "`%s` sets the process error and then stores a task of the process (or the row) before it returns%s" % (
+                      f.short, "" if not silent else " - it does not: nothing after the write patches the process row, the stored row keeps err = null (a kept / reloaded failed process has no error)"), c.loc)
+    cx.floor("C11.R6", 1)
